@@ -852,7 +852,7 @@ fn prim_into_ring(c: &PrimCase, _ctx: &Ctx) -> Out {
 fn main() {
     let mut ck = Check::new(
         "C13",
-        "rings built from modulus classes (1, 2, 2^k for k<64 / 64..127 / multi-word, one word odd/even with and without normalisation shift, two words normalised/shifted/low word zero, 3, 4, 5-32, 33, 40 words, even and low-words-zero multi-word, shared-factor moduli m=g·l) × elements built relative to the modulus (0, 1, m-1, m, m+1, 2m-1, k·m, m/2, random below m, random up to twice the modulus length, b=a, b=m-a, multiples of g; both signs; primitives of every width) × exponents (0, 1, 2, small, 2^k, 2^64±1, two-word, up to 12 words); every operator form of + - * /, Neg, dbl, sqr, pow, inv, ==, residue, modulus, IntoRing and the num_modular::Reducer impl compared with operate-then-reduce in num-bigint (square-and-multiply cross-checked with modpow); residues in [0,m); inv is Some exactly for gcd=1; division by a non-invertible element and any mixing of two ConstDivisor instances must panic with the documented message. Non-trivial: modulus >= 2 words or exponent >= 2; distinct by case digest.",
+        "rings built from modulus classes (1, 2, 2^k for k<64 / 64..127 / multi-word, one word odd/even with and without normalisation shift, two words normalised/shifted/low word zero, 3, 4, 5-32, 33, 40 words, even and low-words-zero multi-word, shared-factor moduli m=g·l) × operands up to 193 words longer than moduli of 1..386 words (sub reduce_long); elements built relative to the modulus (0, 1, m-1, m, m+1, 2m-1, k·m, m/2, random below m, random up to twice the modulus length, b=a, b=m-a, multiples of g; both signs; primitives of every width) × exponents (0, 1, 2, small, 2^k, 2^64±1, two-word, up to 12 words); every operator form of + - * /, Neg, dbl, sqr, pow, inv, ==, residue, modulus, IntoRing and the num_modular::Reducer impl compared with operate-then-reduce in num-bigint (square-and-multiply cross-checked with modpow); residues in [0,m); inv is Some exactly for gcd=1; division by a non-invertible element and any mixing of two ConstDivisor instances must panic with the documented message. Non-trivial: modulus >= 2 words or exponent >= 2; distinct by case digest.",
     );
     ck.assume("num-modular 0.6 only for the `Reducer` trait definition (its primitive-word arithmetic is part of what dashu delegates to, not of the oracle)");
     let th = ck.thorough();
@@ -870,6 +870,56 @@ fn main() {
         (14_000, 420_000),
         move || ring_case(prop_oneof![3 => modulus_small(), 3 => modulus_large(th), 1 => modulus_with_factor().prop_map(|(m, _, _)| m)].boxed(), true),
         reducer_ops,
+    );
+    // reduction of operands much longer than the modulus: the division inside `reduce` runs with
+    // its own scratch memory and switches algorithm at 32-word quotients / divisors
+    ck.sub(
+        "reduce_long",
+        (3_000, 90_000),
+        || {
+            let mlens: Vec<usize> = vec![1, 2, 3, 4, 31, 32, 33, 34, 57, 58, 59, 63, 64, 65, 100, 128, 200, 386];
+            let extra: Vec<usize> = vec![0, 1, 2, 3, 30, 31, 32, 33, 34, 63, 64, 65, 100, 191, 192, 193];
+            (prop::sample::select(mlens), prop::sample::select(extra), 0u8..gen::N_PATTERNS, 0u8..gen::N_PATTERNS, any::<u64>(), any::<u64>(), 0u8..4, any::<bool>()).prop_map(|(lm, ex, pm, px, sm, sx, top, neg)| {
+                let mut mw = gen::expand(lm, pm, sm);
+                // top word of the modulus: normalised (high bit set), 1, or as generated (shifted)
+                match top {
+                    0 => mw[lm - 1] |= 1 << 63,
+                    1 => mw[lm - 1] = 1,
+                    _ => {}
+                }
+                if lm == 1 && mw[0] < 2 {
+                    mw[0] = 3;
+                }
+                let mut xw = gen::expand(lm + ex, px, sx);
+                if top != 3 {
+                    // leading bits of the operand set: the normalisation shift carries into a new word
+                    let l = xw.len();
+                    xw[l - 1] |= 0xf000_0000_0000_0000;
+                }
+                RingCase { m: Nat(mw), a: Int { neg, mag: Nat(xw) }, b: Int { neg: false, mag: Nat(vec![1]) }, e: Nat(vec![1]) }
+            })
+        },
+        |c: &RingCase, _ctx: &Ctx| {
+            let mut out = Out::new();
+            let (nm, na) = (c.m.big(), c.a.big());
+            let want = na.mod_floor(&BigInt::from(nm.clone())).magnitude().clone();
+            let (lm, la) = (c.m.trimmed_len(), c.a.mag.trimmed_len());
+            out.nontrivial(true);
+            out.label(if la >= lm + 32 { "reduce: operand >= 32 words longer than the modulus" } else { "reduce: operand < 32 words longer" });
+            out.label(if lm > 32 { "reduce: modulus > 32 words" } else if lm >= 3 { "reduce: modulus 3-32 words" } else { "reduce: modulus 1-2 words" });
+            let ring = ConstDivisor::new(c.m.ubig());
+            for (form, r) in [
+                ("reduce(IBig)", catch(|| ring.reduce(c.a.ibig()).residue())),
+                ("reduce(UBig of |a|) with the sign applied afterwards", catch(|| { let r = ring.reduce(c.a.mag.ubig()); if c.a.neg { (-r).residue() } else { r.residue() } })),
+                ("IBig % &ConstDivisor, then rem_euclid", catch(|| { let r = c.a.ibig() % &ring; let m = c.m.ubig(); dashu_base::RemEuclid::rem_euclid(r, dashu_int::IBig::from(m)) })),
+            ] {
+                match r {
+                    Ok(g) => out.check(u2n(&g) == want, || format!("{form}: got {} want {} (modulus of {lm} words, operand of {la} words)", show_u(&u2n(&g)), show_u(&want))),
+                    Err(m) => out.fail(format!("{form} panicked on valid operands (modulus of {lm} words, operand of {la} words): {}", normalise(&m))),
+                }
+            }
+            out
+        },
     );
     ck.sub(
         "mixed_rings",
